@@ -13,6 +13,11 @@ if args:
     seeds = [s for s in seeds if any(fnmatch.fnmatch(s, a) for a in args)]
 
 def one(s):
+    try:
+        if json.load(open(os.path.join(V, "seeded", s, "meta.json"))).get("not_a_violation"):
+            return s, 1, "skipped: judged not to violate the property as stated (see its meta.json)"
+    except (OSError, ValueError):
+        pass
     d = tempfile.mkdtemp(prefix="rg-%s-" % s)
     try:
         subprocess.run(["rsync", "-a", "--exclude", ".git", "--exclude", "/sipproxy", "/repo/", d + "/"], check=True)
